@@ -65,6 +65,8 @@ pub enum DatumSpec {
     Spread(Q, String),
     /// Rec { a: input.a + <q>, b: input.b }
     FromInput(String, Q),
+    /// Rec { a: input.l[<q>], b: input.b, l: input.l }
+    Index(String, Q),
 }
 
 #[derive(Clone, Debug)]
@@ -228,7 +230,7 @@ impl Program {
             ));
         }
         if self.has_rec {
-            s.push_str("\ntype Rec {\n    a: Int,\n    b: Bytes,\n}\n");
+            s.push_str("\ntype Rec {\n    a: Int,\n    b: Bytes,\n    l: List<Int>,\n}\n");
         }
         for tx in &self.txs {
             s.push('\n');
@@ -302,15 +304,23 @@ impl Program {
             match &o.datum {
                 None => {}
                 Some(DatumSpec::Rec(q)) => {
-                    s.push_str(&format!("        datum: Rec {{ a: {}, b: 0xBEEF, }},\n", pq(q)))
+                    s.push_str(&format!("        datum: Rec {{ a: {}, b: 0xBEEF, l: [1, 2, 3], }},\n", pq(q)))
                 }
                 Some(DatumSpec::Spread(q, i)) => {
                     s.push_str(&format!("        datum: Rec {{ a: {}, ...{} }},\n", pq(q), i))
                 }
                 Some(DatumSpec::FromInput(i, q)) => s.push_str(&format!(
-                    "        datum: Rec {{ a: {}.a + {}, b: {}.b, }},\n",
+                    "        datum: Rec {{ a: {}.a + {}, b: {}.b, l: {}.l, }},\n",
                     i,
                     pq(q),
+                    i,
+                    i
+                )),
+                Some(DatumSpec::Index(i, q)) => s.push_str(&format!(
+                    "        datum: Rec {{ a: {}.l[{}], b: {}.b, l: {}.l, }},\n",
+                    i,
+                    pq(q),
+                    i,
                     i
                 )),
             }
@@ -417,6 +427,8 @@ pub struct GenCfg {
     pub force_min_utxo: Option<bool>,
     /// more (and multi-field) cardano:: directives
     pub rich_directives: bool,
+    /// more optional outputs with amounts that evaluate to zero
+    pub optional_bias: bool,
 }
 
 fn small_q(t: &mut Tape, params: &mut Vec<(String, Ty)>, hint: &str) -> Q {
@@ -441,6 +453,7 @@ pub fn gen_program(t: &mut Tape, cfg: &GenCfg) -> Program {
     }
     let ntok = match cfg.profile {
         Profile::Fee => t.index(2),
+        Profile::Selection => t.weighted(&[2, 3, 4]),
         _ => t.index(3),
     };
     for i in 0..ntok {
@@ -479,7 +492,7 @@ fn gen_min(t: &mut Tape, cfg: &GenCfg, p: &Program, params: &mut Vec<(String, Ty
                 if t.chance(1, 2) {
                     terms.push((false, Term::Ada(small_q(t, params, "q"))));
                 }
-                if p.tokens.len() > 1 && t.chance(1, 3) {
+                if p.tokens.len() > 1 && t.chance(1, 2) {
                     let j = (i + 1) % p.tokens.len();
                     terms.push((false, Term::Tok(j, small_q(t, params, "n"))));
                 }
@@ -629,10 +642,17 @@ fn gen_tx(t: &mut Tape, cfg: &GenCfg, p: &mut Program, k: usize) -> TxSpec {
     if cfg.profile == Profile::Rich {
         let (wn, wd) = if cfg.rich_directives { (1, 2) } else { (1, 8) };
         if t.chance(wn, wd) {
-            tx.directives.push(Directive::PlutusWitness {
-                version: *t.pick(&[3u8, 2, 1]),
-                script: hex::decode("5101010023259800a518a4d136564004ae69").unwrap(),
-            });
+            // one to four witnesses, distinct scripts, usually one language
+            let version = *t.pick(&[3u8, 2, 1]);
+            let n = 1 + t.weighted(&[4, 2, 1, 1]);
+            for k in 0..n {
+                let mut script = hex::decode("5101010023259800a518a4d136564004ae69").unwrap();
+                script[5] = script[5].wrapping_add(k as u8 * 37);
+                tx.directives.push(Directive::PlutusWitness {
+                    version: if t.chance(1, 6) { *t.pick(&[3u8, 2, 1]) } else { version },
+                    script,
+                });
+            }
         }
         if t.chance(1, 10) {
             tx.directives.push(Directive::NativeWitness);
@@ -658,12 +678,19 @@ fn gen_tx(t: &mut Tape, cfg: &GenCfg, p: &mut Program, k: usize) -> TxSpec {
     let mut spent: Vec<(bool, Term)> = vec![];
     for i in 0..nout - 1 {
         let mut terms: Vec<(bool, Term)> = vec![];
-        if use_min_utxo && t.chance(1, 2) {
-            terms.push((false, Term::MinUtxo(out_names[i].clone())));
+        let mut zero_amount = false;
+        if cfg.optional_bias && t.chance(1, 3) {
+            // an amount that evaluates to nothing: an optional output written like this is dropped
+            terms.push((false, Term::Ada(Q::Lit(0))));
+            zero_amount = true;
+        } else if use_min_utxo && t.chance(1, 2) {
+            // usually the output's own size, sometimes another output's (legal: min_utxo(<any output>))
+            let j = if cfg.optional_bias && t.chance(1, 2) { t.index(nout) } else { i };
+            terms.push((false, Term::MinUtxo(out_names[j].clone())));
         } else {
             terms.push((false, Term::Ada(small_q(t, &mut params, "a"))));
         }
-        if !p.tokens.is_empty() && t.chance(1, 3) {
+        if !zero_amount && !p.tokens.is_empty() && t.chance(1, 3) {
             let tok = t.index(p.tokens.len());
             terms.push((false, Term::Tok(tok, small_q_tok(t, &mut params))));
         }
@@ -673,7 +700,7 @@ fn gen_tx(t: &mut Tape, cfg: &GenCfg, p: &mut Program, k: usize) -> TxSpec {
         }
         tx.outputs.push(OutputSpec {
             name: if use_min_utxo || t.chance(1, 3) { Some(out_names[i].clone()) } else { None },
-            optional: t.chance(1, 8) && datum.is_none(),
+            optional: (zero_amount || t.chance(1, if cfg.optional_bias { 2 } else { 8 })) && datum.is_none(),
             to: t.index(np),
             amount: Amount(terms),
             datum,
@@ -788,10 +815,20 @@ fn gen_datum(t: &mut Tape, cfg: &GenCfg, p: &mut Program, tx: &TxSpec, params: &
     let with_datum: Vec<&InputSpec> = tx.inputs.iter().filter(|i| i.datum_is).collect();
     if !with_datum.is_empty() && t.chance(2, 3) {
         let i = with_datum[t.index(with_datum.len())].name.clone();
-        if t.chance(1, 2) {
-            Some(DatumSpec::Spread(small_q(t, params, "x"), i))
-        } else {
-            Some(DatumSpec::FromInput(i, small_q(t, params, "x")))
+        match t.draw(3) {
+            0 => Some(DatumSpec::Spread(small_q(t, params, "x"), i)),
+            1 => Some(DatumSpec::FromInput(i, small_q(t, params, "x"))),
+            _ => {
+                // index into the list field: a literal or an Int parameter
+                let q = if t.chance(1, 2) {
+                    let name = format!("i{}", params.len());
+                    params.push((name.clone(), Ty::Int));
+                    Q::Param(name)
+                } else {
+                    Q::Lit(t.draw(3) as i128)
+                };
+                Some(DatumSpec::Index(i, q))
+            }
         }
     } else {
         Some(DatumSpec::Rec(small_q(t, params, "x")))
@@ -812,6 +849,9 @@ pub struct LedgerCfg {
     pub size: usize,
     pub dist: AmountDist,
     pub ties: bool,
+    /// every UTxO gets a different lovelace amount (no equal-distance candidates, hence no
+    /// hash-order tie-breaking in coin selection)
+    pub distinct: bool,
 }
 
 pub fn draw_lovelace(t: &mut Tape, dist: &AmountDist) -> i128 {
@@ -840,21 +880,26 @@ pub fn draw_lovelace(t: &mut Tape, dist: &AmountDist) -> i128 {
 
 pub fn gen_ledger(t: &mut Tape, w: &mut crate::world::World, p: &Program, cfg: &LedgerCfg) {
     let mut tie_val: Option<Value> = None;
+    // "split" ledgers keep each token in its own UTxOs, so that only a set can cover a two-token query
+    let split = p.tokens.len() > 1 && t.chance(1, 2);
     for _ in 0..cfg.size {
         let owner = if t.chance(1, 6) { t.index(p.parties.len()) } else { 0 };
         let mut v = Value::new();
-        let l = draw_lovelace(t, &cfg.dist);
+        let mut l = draw_lovelace(t, &cfg.dist);
+        if cfg.distinct {
+            l += 1 + (w.chain.utxos.len() as i128 + 1) * 1013;
+        }
         if l != 0 {
             v.insert(None, l);
         }
-        if !p.tokens.is_empty() && t.chance(1, 3) {
+        if !p.tokens.is_empty() && t.chance(1, if split { 2 } else { 3 }) {
             let k = t.index(p.tokens.len());
             let amt = match cfg.dist {
                 AmountDist::Boundary => *t.pick(&[1i128, 5, 1 << 32, 1 << 62, i64::MAX as i128, u64::MAX as i128]),
                 _ => 1 + t.draw(8) as i128,
             };
             v.insert(p.tokens[k].key(), amt);
-            if p.tokens.len() > 1 && t.chance(1, 4) {
+            if p.tokens.len() > 1 && !split && t.chance(1, 4) {
                 let k2 = (k + 1) % p.tokens.len();
                 v.insert(p.tokens[k2].key(), 1 + t.draw(8) as i128);
             }
@@ -873,6 +918,11 @@ pub fn gen_ledger(t: &mut Tape, w: &mut crate::world::World, p: &Program, cfg: &
                 fields: vec![
                     tir::Expression::Number(t.draw(1000) as i128),
                     tir::Expression::Bytes(vec![0xCA, 0xFE]),
+                    tir::Expression::List(vec![
+                        tir::Expression::Number(10),
+                        tir::Expression::Number(20),
+                        tir::Expression::Number(30),
+                    ]),
                 ],
             }))
         } else {
@@ -912,6 +962,11 @@ pub fn int_boundary(t: &mut Tape) -> i128 {
         i128::MAX,
         i128::MIN,
         (1 << 64) - 1,
+        -(1 << 64) - 1,
+        -(1 << 64) - 256,
+        1 << 100,
+        -(1 << 100),
+        (1 << 63) + 1,
     ])
 }
 
@@ -941,7 +996,9 @@ pub fn gen_args(t: &mut Tape, p: &Program, tx: &TxSpec, chain: &SimChain, dist: 
             Ty::Int => {
                 let v = match dist {
                     ArgDist::Small => {
-                        if n.starts_with('s') {
+                        if n.starts_with('i') {
+                            *t.pick(&[1i128, 0, 2, 3])
+                        } else if n.starts_with('s') {
                             *t.pick(&[1000i128, 0, 50, 1 << 20])
                         } else if n.starts_with('n') || n.starts_with('k') {
                             *t.pick(&[1i128, 2, 3, 5, 0])
